@@ -390,9 +390,11 @@ impl LicenseParagraph {
 
     /// Name of the license
     pub fn name(&self) -> Option<String> {
-        self.0
-            .get("License")
-            .and_then(|x| x.split_once('\n').map(|(name, _)| name.to_string()))
+        // The name is the first line of the field; the text is optional.
+        self.0.get("License").map(|x| {
+            x.split_once('\n')
+                .map_or(x.clone(), |(name, _)| name.to_string())
+        })
     }
 
     /// Text of the license
